@@ -96,11 +96,12 @@ func dedupInts(xs ...int) []int {
 // histAlphabet. level 2: every parameter for both contents. level 1: every parameter for P, and Q with
 // one representative parameter (half) per parametrised operation. level 0: as level 1, but failing
 // appends only for k in {1,half} x j in {0,1,all-but-one}.
-//   Write(c), WriteReader(c)                      complete writes
-//   WriteReader(c)-fails-after-j                  transport error after j in {0,1,half,n-1} bytes: leaves "<path>.part"
-//   AppendReader(c[k:])                           resumer that assumed k in {0,1,half,n-1} staged bytes sends the rest
-//   AppendReader(c[k:])-fails-after-j             ... and its transport drops after j in {0,1,half,all-but-one} tail bytes
-//   Delete, DeleteStaging, StatFile, Exists       Backend.Delete(path), Backend.Delete(path+".part"), probes
+//
+//	Write(c), WriteReader(c)                      complete writes
+//	WriteReader(c)-fails-after-j                  transport error after j in {0,1,half,n-1} bytes: leaves "<path>.part"
+//	AppendReader(c[k:])                           resumer that assumed k in {0,1,half,n-1} staged bytes sends the rest
+//	AppendReader(c[k:])-fails-after-j             ... and its transport drops after j in {0,1,half,all-but-one} tail bytes
+//	Delete, DeleteStaging, StatFile, Exists       Backend.Delete(path), Backend.Delete(path+".part"), probes
 func histAlphabet(level int) []hop {
 	var al []hop
 	for c, data := range histContents {
